@@ -33,6 +33,7 @@ type Case struct {
 	Passes    int     `json:"passes"`
 	Answer    string  `json:"target_answer"` // small | empty | 5k | 100k | chunked | chunked_big
 	Connect   bool    `json:"connect_gun"`   // gun type connect (CONNECT tunnel to the target first) instead of http
+	HTTP2     bool    `json:"http2_gun"`     // gun type http2 against a TLS target that negotiates h2 (needs ssl: true)
 }
 
 var cfgHeaderNames = []string{"X-Test", "Accept", "User-Agent", "Cookie", "X-Cfg-Only", "Authorization", "X-Other-Cfg", "Referer"}
@@ -75,6 +76,13 @@ func genCase(t *rapid.T) Case {
 	c.Connect = !c.SSL && rapid.IntRange(0, 3).Draw(t, "connectGun") == 0
 	// what the target answers: the gun must drain any answer to keep its connection
 	c.Answer = rapid.SampledFrom([]string{"small", "small", "empty", "5k", "100k", "chunked", "chunked_big"}).Draw(t, "answer")
+	// third gun kind: http2 (only over TLS; "HTTP/2.0 over TCP is not supported"). The keep-alive clauses hold for it
+	// as for the others, and are as likely on as off here: every connection costs a TLS handshake, which is what a
+	// test with keep-alives disabled wants to measure.
+	if c.SSL && rapid.IntRange(0, 2).Draw(t, "http2Gun") == 0 {
+		c.HTTP2 = true
+		c.NoKeep = rapid.Bool().Draw(t, "http2NoKeepAlive")
+	}
 	return c
 }
 
@@ -114,7 +122,7 @@ func expected(c Case) []wantReq {
 
 var transportAdds = map[string]bool{"User-Agent": true, "Content-Length": true, "Accept-Encoding": true, "Connection": true, "Transfer-Encoding": true}
 
-func matches(w wantReq, r target.Rec, targetAddr string) error {
+func matches(w wantReq, r target.Rec, targetAddr string, h2 bool) error {
 	if r.Method != w.Method {
 		return fmt.Errorf("method %q, ammo says %q", r.Method, w.Method)
 	}
@@ -134,6 +142,11 @@ func matches(w wantReq, r target.Rec, targetAddr string) error {
 	}
 	for k, v := range w.Headers {
 		got := r.Header[k]
+		if h2 && k == "Cookie" && v == "" && len(got) == 0 {
+			// HTTP/2 carries Cookie as one field per cookie-pair (RFC 9113 8.2.3): a Cookie header holding no pair
+			// has no representation there
+			continue
+		}
 		if len(got) != 1 || got[0] != v {
 			return fmt.Errorf("header %s = %q, expected %q", k, got, v)
 		}
@@ -147,10 +160,10 @@ func matches(w wantReq, r target.Rec, targetAddr string) error {
 }
 
 func check(c Case, o *vf.Obs) error {
-	tg, mu := target.Shared(c.SSL)
-	mu.Lock()
-	defer mu.Unlock()
-	tg.Reset(func(seq int, r *target.Rec) target.Resp {
+	if c.HTTP2 && (!c.SSL || c.Connect) {
+		return fmt.Errorf("harness: the http2 gun kind needs ssl and excludes the connect gun: %+v", c)
+	}
+	answer := func(seq int, r *target.Rec) target.Resp {
 		switch c.Answer {
 		case "empty":
 			return target.Resp{Status: 200}
@@ -164,7 +177,31 @@ func check(c Case, o *vf.Obs) error {
 			return target.Resp{Status: 200, Chunks: [][]byte{bytes.Repeat([]byte("a"), 3000), bytes.Repeat([]byte("b"), 9000), []byte("end")}}
 		}
 		return target.Resp{Status: 200, Body: []byte("ok")}
-	})
+	}
+	// the recording target: HTTP/1.1 (plain or TLS, CONNECT-capable) or, for the http2 gun, TLS negotiating h2
+	var (
+		addr      string
+		records   func() []target.Rec
+		connects  func() int64
+		connsOpen func() int // connections the target saw being set up since Reset, with or without a request on them
+	)
+	if c.HTTP2 {
+		tg, mu := target.SharedH2(true)
+		mu.Lock()
+		defer mu.Unlock()
+		tg.Reset(nil, func(seq int, r *target.Rec, _ int) target.H2Resp { return target.H2Resp{Resp: answer(seq, r)} })
+		defer tg.Reset(nil, nil)
+		addr, records = tg.Addr(), tg.Records
+		connects = func() int64 { return 0 }
+		connsOpen = func() int { return len(tg.Handshakes()) } // one TLS handshake per accepted connection
+	} else {
+		tg, mu := target.Shared(c.SSL)
+		mu.Lock()
+		defer mu.Unlock()
+		tg.Reset(answer)
+		addr, records, connects = tg.Addr(), tg.Records, tg.Connects
+		connsOpen = func() int { return int(tg.ConnsAccepted()) }
+	}
 	want := expected(c)
 	E := len(want)
 	total := E * c.Passes
@@ -184,9 +221,12 @@ func check(c Case, o *vf.Obs) error {
 		}
 		ammo["headers"] = hs
 	}
-	gun := map[string]any{"type": "http", "target": tg.Addr(), "ssl": c.SSL}
+	gun := map[string]any{"type": "http", "target": addr, "ssl": c.SSL}
 	if c.Connect {
 		gun["type"] = "connect"
+	}
+	if c.HTTP2 {
+		gun["type"] = "http2"
 	}
 	if c.NoKeep {
 		gun["disable-keep-alives"] = true
@@ -211,7 +251,7 @@ func check(c Case, o *vf.Obs) error {
 		return fmt.Errorf("run failed: %v", runErr)
 	}
 	eng.Wait()
-	recs := tg.Records()
+	recs := records()
 	if len(recs) != total {
 		return fmt.Errorf("%d requests reached the target, ammo holds %d entries x %d passes = %d\n--- file ---\n%q", len(recs), E, c.Passes, total, c.File.Render())
 	}
@@ -220,7 +260,7 @@ func check(c Case, o *vf.Obs) error {
 	for k := 0; k < total; k++ {
 		w := want[k%E]
 		if c.Instances == 1 {
-			if err := matches(w, recs[k], tg.Addr()); err != nil {
+			if err := matches(w, recs[k], addr, c.HTTP2); err != nil {
 				return fmt.Errorf("request %d (entry %d): %v\nconfig headers %v\n--- file (%s) ---\n%q", k, k%E, err, c.Headers, c.File.Format, c.File.Render())
 			}
 			continue
@@ -231,7 +271,7 @@ func check(c Case, o *vf.Obs) error {
 			if used[i] {
 				continue
 			}
-			if err := matches(w, r, tg.Addr()); err == nil {
+			if err := matches(w, r, addr, c.HTTP2); err == nil {
 				used[i] = true
 				found = true
 				break
@@ -247,6 +287,9 @@ func check(c Case, o *vf.Obs) error {
 		if r.TLS != c.SSL {
 			return fmt.Errorf("request arrived with TLS=%v but ssl=%v", r.TLS, c.SSL)
 		}
+		if c.HTTP2 != (r.Proto == "HTTP/2.0") {
+			return fmt.Errorf("request arrived as %s, gun type %v", r.Proto, gun["type"])
+		}
 	}
 	conns := map[int64]bool{}
 	for _, r := range recs {
@@ -258,6 +301,13 @@ func check(c Case, o *vf.Obs) error {
 		}
 	} else if len(conns) > c.Instances {
 		return fmt.Errorf("keep-alives enabled, %d instances, but the target saw %d connections for %d requests", c.Instances, len(conns), len(recs))
+	}
+	// the same two clauses on what the target's accept / handshake counter shows (also connections that carried
+	// no request)
+	if n := connsOpen(); c.NoKeep && n != len(recs) {
+		return fmt.Errorf("%v gun, keep-alives disabled: the target saw %d connections being set up for %d requests, expected one connection per request", gun["type"], n, len(recs))
+	} else if !c.NoKeep && n > c.Instances {
+		return fmt.Errorf("%v gun, keep-alives enabled, %d instances, but the target saw %d connections being set up for %d requests", gun["type"], c.Instances, n, len(recs))
 	}
 	// classes
 	overlap, hostAmmo := false, false
@@ -279,7 +329,11 @@ func check(c Case, o *vf.Obs) error {
 	o.ClassIf(c.File.Big, "file_larger_than_reader_buffer")
 	o.Class("answer_" + c.Answer)
 	o.ClassIf(c.Connect, "connect_gun")
-	if c.Connect && tg.Connects() == 0 {
+	o.ClassIf(c.HTTP2, "http2_gun")
+	o.ClassIf(c.HTTP2 && c.NoKeep && len(recs) >= 2, "http2_keep_alive_off_ge_2_requests")
+	o.ClassIf(c.HTTP2 && !c.NoKeep && len(recs) > c.Instances, "http2_keep_alive_more_requests_than_instances")
+	o.ClassIf(!c.HTTP2 && !c.Connect, "http_gun")
+	if c.Connect && connects() == 0 {
 		return fmt.Errorf("connect gun: requests arrived but no CONNECT tunnel was opened")
 	}
 	o.ClassIf(!c.NoKeep && (c.Answer == "100k" || c.Answer == "chunked" || c.Answer == "chunked_big" || c.Answer == "5k"), "keep_alive_with_multi_read_answer")
